@@ -17,6 +17,6 @@ package query
 //@   ensures forall k int :: 0 <= k < len(words) ==> len(words[k]) >= 1
 //@   loop 1:
 //@     invariant 0 <= r <= len(q) + 1 && 0 <= w <= r && w <= len(word) && len(word) == len(q) && unchanged()
-//@     invariant len(words) == 0 || fresh(words)
+//@     invariant words == nil || fresh(words)
 //@     invariant forall k int :: 0 <= k < len(words) ==> len(words[k]) >= 1
 //@     decreases len(q) + 1 - r
